@@ -207,7 +207,7 @@ PROPS["C04"] = {
                 "client-side validation of responses (C03 harnesses)", "text of error messages"],
     "manifest": {
         "text": "Translation validation of the code the real generator emits for each catalogue design: the generated server handler (NewXHandler, DecodeXRequest, ValidateX*, NewXPayload, goa's ErrorEncoder/NewErrorResponse/MergeErrors and validators, all interpreted from SSA) is run on a fully symbolic wire request and the solver decides, for all values within the bounds, that the service endpoint runs iff an oracle written from the design (not derived from goa) accepts the request, that a rejected request gets exactly one 400 response whose error name is one of the violated rules, and that an accepted payload carries the wire values. Over designs the claim is only 'every design of the catalogue'.",
-        "note": "Trusted: gosym executor, z3, the hand-written oracle of each catalogue design. Regenerated from /repo on every run in a scratch module (replace goa => /repo). Four genuine divergences are listed in known_findings.json.",
+        "note": "Trusted: gosym executor, z3, the hand-written oracle of each catalogue design. Regenerated from /repo on every run in a scratch module (replace goa => /repo). Six genuine divergences are listed in known_findings.json.",
     },
 }
 
@@ -376,7 +376,7 @@ PROPS["C14"] = {
                     "format: int32/int64 are range constraints, other formats are advisory and not compared", "NaN parameters, explicit JSON null and unknown extra members are outside the schema's value space"],
     "outside": ["response headers and cookies against their documented schemas (bodies and status codes only)", "undeclared errors (default 400/500 responses are not documented by goa)", "validity of the document itself (C07)", "designs outside the catalogue"],
     "manifest": {"text": "Translation validation between two artefacts the real generator emits for each catalogue design: the parameter and request-body schemas of gen/http/openapi3.json (parsed at check time, evaluated as an SMT predicate over the symbolic wire request by the executor's JSON-schema evaluator) and the generated server (run symbolically as in C04). The solver decides schema(request) <=> server accepts(request) for all values within the bounds, and, for the success and declared-error responses the generated server produces in the C03/C05/C08 harnesses, that the status code is documented and the response body conforms to the schema documented for it; natively every counterexample and witness is re-validated with kin-openapi against the generated server code.",
-                 "note": 'Trusted: gosym executor and its JSON-schema evaluator (cross-checked natively by kin-openapi on every counterexample/witness), z3, the C04 wire model. Seven genuine divergences are listed in known_findings.json.'},
+                 "note": 'Trusted: gosym executor and its JSON-schema evaluator (cross-checked natively by kin-openapi on every counterexample/witness), z3, the C04 wire model. Nine genuine divergences are listed in known_findings.json.'},
 }
 
 PROPS["C10"] = {
